@@ -152,7 +152,7 @@ func asciiLower(b []byte) []byte {
 var alphaCSS = engine.Atoms(" ", "\t", "\n", "\r", "\f", "\v", ":", ";", ",", "(", ")", "[", "]", "{", "}", "#", "\"", "'", ".",
 	"+", "-", "@", "$", "*", "^", "~", "/", "<", "!", ">", "\\", "|", "=", "?", "%", "_", "\x00", "\x1f", "\x7f",
 	"0", "1", "9", "a", "f", "A", "F", "g", "e", "E", "u", "U", "r", "l", "R", "L",
-	"\x80", "é", "\u2028", "😀", "\xc3", "\xe2", "\xf0")
+	"\x80", "é", "\u2028", "😀", "\xc3", "\xe2", "\xf0", "\ufeff")
 
 // core alphabet: the bytes that steer multi-byte look-ahead, for one more level
 var alphaCSSCore = engine.Atoms(" ", "\n", "\v", ":", ";", ",", "(", ")", "[", "]", "{", "}", "#", "\"", "'", ".",
